@@ -390,6 +390,27 @@ func runC20(c *Ctx) {
 	log.SetOutput(io.Discard) // fillHole logs every winding fix-up
 	defer log.SetOutput(old)
 
+	// KNOWN FINDING C20-float-incircle-tight-cluster, recorded on every run (first lines of the stream): a far point
+	// inserted AFTER a tight cluster. 3 frame points, the cluster (0,0), (3,1)·2^-46, (1,4)·2^-46, then the far point
+	// (864,-32): distinct points in general position (Props/C20.lean proves it on the 2^46 scale), yet the float64 in-circle
+	// tests of the far point against the tiny triangle cancel and the output is neither Delaunay nor free of overlap.
+	{
+		s46 := math.Ldexp(1, -46)
+		w := c20pts{vector2.New(352., 320.), vector2.New(432., -480.), vector2.New(-880., 288.),
+			vector2.New(0., 0.), vector2.New(3*s46, 1*s46), vector2.New(1*s46, 4*s46), vector2.New(864., -32.)}
+		tris, _, pan := c20Run(w)
+		if !pan {
+			var ts strings.Builder
+			fmt.Fprintf(&ts, "%d", len(tris))
+			for _, t := range tris {
+				fmt.Fprintf(&ts, " %d %d %d", t[0], t[1], t[2])
+			}
+			c.Emit("c20.holds.delaunay_tight_cluster_witness", "witness "+c20PtsStr(w)+" "+ts.String(), "true")
+			c.Emit("c20.holds.no_overlap_tight_cluster_witness", "witness "+c20PtsStr(w)+" "+ts.String(), "true")
+			c.Note("known-finding.tight-cluster-witness")
+		}
+	}
+
 	// fewer than 3 points: panic on both sides
 	for n := 0; n < 3; n++ {
 		c.c20Model("few", c.c20Ints(n, 8))
